@@ -149,7 +149,7 @@ Section Indep.
         destruct (get_file _ _ _ _ _ _ (mkR s2 m) _) as [rb xb].
         cbn [fst snd] in *. subst xb.
         destruct xa as [[[b size]|]|e|c]; cbn [fst snd]; try (repeat split; first [reflexivity | assumption]).
-        destruct (do_reads _ _ _ _ _ _) as [b1 rows]. cbn [fst snd r_meta].
+        destruct (do_reads _ _ _ _ _ _ _) as [b1 rows]. cbn [fst snd r_meta].
         rewrite M1, M2. repeat split; reflexivity.
     - (* 2c : 2 = partial reads, 4 = linear extraction *)
       destruct c as [c|c|].
@@ -168,7 +168,7 @@ Section Indep.
         destruct (get_file _ _ _ _ _ _ (mkR s2 m) _) as [rb xb].
         cbn [fst snd] in *. subst xb.
         destruct xa as [[[b size]|]|e|c]; cbn [fst snd]; try (repeat split; first [reflexivity | assumption]).
-        destruct (do_reads _ _ _ _ _ _) as [b1 rows]. cbn [fst snd r_meta].
+        destruct (do_reads _ _ _ _ _ _ _) as [b1 rows]. cbn [fst snd r_meta].
         rewrite M1, M2. repeat split; reflexivity.
     - (* 1: hash *)
       destruct rest as [|i [|? ?]]; try (repeat split; reflexivity).
